@@ -5,7 +5,7 @@ is about the exits of `_send`, about who touches the process, and about both end
 the wire format."""
 import ast
 
-from ..core import AnchorError, call_name, dotted_text, names_in, norm, short, own_nodes, atoms
+from ..core import AnchorError, call_name, dotted_text, names_in, norm, short, own_nodes, atoms, kwarg, FUNC_TYPES
 from ..cfg import cfg_of
 from ..lib import (calls_in, stmts_in, gate, must_pass, node_has, enclosing_handlers, handler_types,
                    raised_name, attr_stores, params)
@@ -99,6 +99,18 @@ def rule_b(repo, chk):
                         '(write: BrokenPipeError; read: EOFError and pickle.UnpicklingError); each such handler calls '
                         '_kill() and leaves only by raising InternalError')
     f = repo.find(SUB, 'CompiledSubprocess._send')
+    # what a dying helper left on stderr is arbitrary bytes: decoding it on the way to `raise InternalError` must not be able to fail
+    nd = 0
+    for q, g in sorted(repo.module(SUB).defs.items()):
+        if not isinstance(g, FUNC_TYPES) or q.startswith('Listener'):
+            continue
+        for c in [x for x in own_nodes(g) if isinstance(x, ast.Call) and isinstance(x.func, ast.Attribute) and x.func.attr == 'decode']:
+            nd += 1
+            err = c.args[1] if len(c.args) > 1 else kwarg(c, 'errors')
+            ok = isinstance(err, ast.Constant) and err.value in ('replace', 'ignore', 'backslashreplace', 'surrogateescape')
+            chk.ob('C14.b', ok, c, 'helper output is decoded with an error handler in %s (a UnicodeDecodeError would replace the InternalError)' % q,
+                   '' if ok else 'errors=%s' % (short(err) if err is not None else 'strict (default)'))
+    chk.floor('C14.b', nd, 2, '(decode() of helper output on the host side)')
     writes, reads = _pipe_ops(repo, f)
     chk.floor('C14.b', len(writes), 1, '(pickle_dump in _send)')
     chk.floor('C14.b', len(reads), 1, '(pickle_load in _send)')
@@ -361,6 +373,10 @@ def rule_f(repo, chk):
         st = repo.enclosing_stmt(c)
         hs = [h for t in enclosing_handlers(st, listen) for h in t.handlers if handler_types(h) & {'Exception', 'BaseException', '*'}]
         chk.ob('C14.f', bool(hs), c, 'a raising function is caught (except Exception) in the listener')
+        wide = [h for t in enclosing_handlers(st, listen) for h in t.handlers if handler_types(h) & {'BaseException', '*', 'SystemExit', 'KeyboardInterrupt'}]
+        chk.ob('C14.f', not wide, c, 'SystemExit/KeyboardInterrupt inside the helper end the helper (=> InternalError on the host): they are never '
+                                     'caught and shipped to the host as a "function raised" reply, which _send would re-raise verbatim',
+               'caught by `except %s`' % ', '.join(sorted(handler_types(wide[0]))) if wide else '')
         for h in hs:
             chk.ob('C14.f', not stmts_in(h, ast.Raise) if False else not [x for x in ast.walk(h) if isinstance(x, ast.Raise)], h,
                    'the catch-all handler does not re-raise')
